@@ -15,7 +15,10 @@ def atom(id, field, cls, spellings, **attrs):
 atom("o_star", "origins", "star", ["*"])
 atom("o_https", "origins", "valid", ["https://example.com", "https://sub.example.org:8443", "https://www.xn--xample-9ua.com",
                                     "https://example.com.", "https://a-b.example.com:1", "https://example.co.uk:65535"])
-atom("o_http", "origins", "valid", ["http://example.com", "http://foo.example.net:8080", "http://example.com:443", "http://example.org."], insecure=True)
+atom("o_http", "origins", "valid", ["http://example.com", "http://foo.example.net:8080", "http://example.com:443", "http://example.org.",
+                                   # hosts that merely LOOK like localhost / a loopback address
+                                   "http://localhost.example.com", "http://localhosts", "http://notlocalhost:8080", "http://127.example.com",
+                                   "http://my.localhost", "http://128.0.0.1", "http://[::2]"], insecure=True)
 atom("o_custom", "origins", "valid", ["connector://example.com", "foo+bar://example.com:80", "httpss://example.com", "ws://example.com:*"], insecure=True)
 atom("o_local", "origins", "valid", ["http://localhost", "http://localhost:3000", "http://127.0.0.1:8080", "http://[::1]:9090",
                                     "connector://localhost", "http://127.127.127.127", "http://localhost:*"])
